@@ -829,17 +829,7 @@ fn alarm_path_selftest(args: &Args) -> Result<Value, String> {
 fn cmd_run(world: &World, args: &Args) -> i32 {
     let t0 = Instant::now();
     exec::CANARY.store(args.canary, std::sync::atomic::Ordering::Relaxed);
-    let alarm_selftest = if args.canary || args.variant != "main" {
-        json!(null)
-    } else {
-        match alarm_path_selftest(args) {
-            Ok(v) => v,
-            Err(e) => {
-                eprintln!("harness error: {}", e);
-                return 2;
-            }
-        }
-    };
+    let mut alarm_selftest = json!(null);
     let known = match load_known(&args.known) {
         Ok(k) => k,
         Err(e) => {
@@ -1033,6 +1023,18 @@ fn cmd_run(world: &World, args: &Args) -> i32 {
     }
     for (what, n) in &st.known_hits {
         println!("KNOWN-FINDING: property={} {} (seen {} times)", PROPERTY, what, n);
+    }
+    // alarm-path self-test: only meaningful (and only needed) when the search above held — on a violating
+    // tree the alarm path has just been exercised for real, and the canary child could meet the real
+    // violation before the planted one
+    if exit == 0 && !unreproducible && !args.canary && args.variant == "main" {
+        match alarm_path_selftest(args) {
+            Ok(v) => alarm_selftest = v,
+            Err(e) => {
+                eprintln!("harness error: {}", e);
+                return 2;
+            }
+        }
     }
 
     if exit == 0 && det_mismatch != 0 && !unreproducible {
@@ -1261,6 +1263,7 @@ fn cmd_run(world: &World, args: &Args) -> i32 {
                 "S3": "g + d: a serde stream cut short or failing gives Err",
                 "S4": "g: serde_json / serde_cbor identical to a derived { bits } struct, incl. every strict prefix of the text/bytes",
                 "S5": "g: an integer that does not fit the width is rejected whenever the derived { bits } struct rejects it (never accepted as a wrapped value)",
+                "L1": "a, c through generic storage APIs: every declared EncodeLike relation between a layout and a primitive integer stores bytes that the slot type decodes completely (same width: to the same bits)",
                 "D7": "c under depth limits: a successful decode leaves the input's nesting depth where it found it (descend_ref / ascend_ref balanced)",
                 "U1": "c, d (thorough tier): no undefined behaviour reported by Miri on the unsafe decode paths of the PRNG-free probe batch",
             },
